@@ -235,9 +235,38 @@ CANARIES = [
 ]
 
 
+HETERO_NETS = [
+    [([-1], [2]), ([-1, 0, 0], [2, 2, 2])],
+    [([-1, 0, 0, 1], [2, 2, 2, 2]), ([-1, 0], [2, 2])],
+    [([-1, 0, 0], [1, 1, 1]), ([-1], [1]), ([-1, 0, 1], [1, 1, 1])],
+    [([-1, 0], [2, 2]), ([-1, 0, 0, 1], [2, 2, 2, 2])],
+]
+
+
 def main(tier):
     ck = Check(PID, tier)
     outs = run_units("jxverif.props.C12", "worker", [(tier, None)] + [("quick", c) for c in CANARIES])
+    # the solver side of "a network simulates each cell as the cell alone": C01's chain on networks whose cells differ in
+    # depth / size (block-diagonal specification system = the cells' systems); exercised here so that C12 stands alone
+    from . import C01
+    outs_n = run_units("jxverif.props.C01", "structure_worker", [(c, tier, ["jaxley.thomas", "jax.sparse"]) for c in HETERO_NETS])
+    for o in outs_n:
+        if o[0] != "ok" or o[1]["error"]:
+            ck.error(str(o[1] if o[0] != "ok" else o[1]["error"])[:600])
+            continue
+        for r in o[1]["refused"]:
+            ck.refused.append(f"{o[1]['tag']}: {r}")
+        bad = [r for r in o[1]["results"] if r["status"] == "refuted"]
+        for r in o[1]["results"]:
+            ck.add(r)
+        if bad:
+            try:
+                rp = C01.native_compare(o[1]["cells"])
+            except Exception as e:
+                rp = {"reproduced": False, "reason": str(e)[:100]}
+            for r in bad[:3]:
+                ck.violation(r["name"], {"solver": r["backend"], "solver_output": r["detail"], "model": r["model"], "cells": o[1]["cells"], "kind": "c01",
+                                         "replay_module": "jxverif.props.C01", "replay": rp}, reproduced=rp.get("reproduced", False))
     o = outs[0]
     if o[0] != "ok" or o[1]["error"]:
         ck.error(str(o[1] if o[0] != "ok" else o[1]["error"])[:900])
